@@ -39,3 +39,62 @@ package common
 //@ spec rec func collSum(inputs []TransactionInput, ls LedgerState, n int) Int = ite(n <= 0, 0, collSum(inputs, ls, n-1) + collAmt(inputs, ls, n-1))
 // the coin a collateral-return output gives back (0 when there is none)
 //@ spec func collReturnAmt(tx Transaction) Int = ite(tx.CollateralReturn() == nil || tx.CollateralReturn().Amount() == nil, 0, val(tx.CollateralReturn().Amount()))
+
+// C05: text parsing never accepts a bech32 prefix that does not match the address: when the text
+// decoded as bech32, success implies EqualFold(hrp from the text, HRP generated from the parsed
+// address) returned true, and the parsed address is not a Byron address.
+//@ func NewAddress(addr) (a, err)
+//@   props C05
+//@   attr trackcalls on
+//@   ensures hrpgate: err == nil && called(DecodeNoLimit) && callres(DecodeNoLimit, 2) == nil ==>
+//@       called(EqualFold) && callres(EqualFold) && callarg(EqualFold, 0) == callres(DecodeNoLimit, 0) &&
+//@       called(generateHRP) && callarg(EqualFold, 1) == callres(generateHRP) && callarg(generateHRP, 0) == a &&
+//@       a.addressType != AddressTypeByron
+
+// Pointer payload: three variable-length unsigned integers.
+//@ func (a *AddressPayloadPointer) decode$1(data, offset) (v, next, err)
+//@   inline
+//@   requires range: offset >= 0 && offset <= len(data)
+//@   ensures advance: err == nil ==> next > offset && next <= len(data)
+//@   loop 0 invariant offset0 >= 0 && offset >= offset0 && offset <= len(data)
+
+//@ func (a *AddressPayloadPointer) decode(data) (n, err)
+//@   props C05
+//@   requires nonnil: a != nil
+//@   assigns a.Slot, a.TxIndex, a.CertIndex
+//@   ensures consumed: err == nil ==> n >= 3 && n <= len(data)
+
+//@ func isKnownMalformedAddressTrailer(trailer) (r)
+//@   props C05
+//@   pure
+
+// C05: decoding raw bytes. For a Shelley-family header the reported type and network are the header
+// nibbles, the type is one of the ten defined ones, the network id is 0 or 1, the credentials are the
+// payload bytes, and the length is exactly the type's length unless the extra bytes were kept as a
+// (mainnet, whitelisted) trailer.
+//@ func (a *Address) populateFromBytes(data) (err)
+//@   props C05
+//@   attr maxpaths 3000
+//@   requires nonnil: a != nil
+//@   requires fresh: len(a.extraData) == 0
+//@   let ty = data[0] >> 4
+//@   let shelleyFamily = len(data) > 0 && ty != 8
+//@   ensures empty: len(data) == 0 ==> err != nil
+//@   ensures nibbles: err == nil && shelleyFamily ==> a.addressType == ty && a.networkId == data[0] & 15
+//@   ensures network: err == nil && shelleyFamily ==> data[0] & 15 == 0 || data[0] & 15 == 1
+//@   ensures knowntype: err == nil && shelleyFamily ==> ty <= 7 || ty == 14 || ty == 15
+//@   ensures paykey: err == nil && shelleyFamily && (ty == 0 || ty == 2 || ty == 4 || ty == 6) ==> len(data) >= 29 &&
+//@       dyn(a.paymentPayload) == type(AddressPayloadKeyHash) && unbox(a.paymentPayload, type(AddressPayloadKeyHash)).Hash == bytesbv(data[1:29], 28)
+//@   ensures payscript: err == nil && shelleyFamily && (ty == 1 || ty == 3 || ty == 5 || ty == 7) ==> len(data) >= 29 &&
+//@       dyn(a.paymentPayload) == type(AddressPayloadScriptHash) && unbox(a.paymentPayload, type(AddressPayloadScriptHash)).Hash == bytesbv(data[1:29], 28)
+//@   ensures stakekey: err == nil && shelleyFamily && (ty == 0 || ty == 1) ==> len(data) >= 57 &&
+//@       dyn(a.stakingPayload) == type(AddressPayloadKeyHash) && unbox(a.stakingPayload, type(AddressPayloadKeyHash)).Hash == bytesbv(data[29:57], 28)
+//@   ensures stakescript: err == nil && shelleyFamily && (ty == 2 || ty == 3) ==> len(data) >= 57 &&
+//@       dyn(a.stakingPayload) == type(AddressPayloadScriptHash) && unbox(a.stakingPayload, type(AddressPayloadScriptHash)).Hash == bytesbv(data[29:57], 28)
+//@   ensures stakeonlykey: err == nil && shelleyFamily && ty == 14 ==> len(data) >= 29 &&
+//@       dyn(a.stakingPayload) == type(AddressPayloadKeyHash) && unbox(a.stakingPayload, type(AddressPayloadKeyHash)).Hash == bytesbv(data[1:29], 28)
+//@   ensures stakeonlyscript: err == nil && shelleyFamily && ty == 15 ==> len(data) >= 29 &&
+//@       dyn(a.stakingPayload) == type(AddressPayloadScriptHash) && unbox(a.stakingPayload, type(AddressPayloadScriptHash)).Hash == bytesbv(data[1:29], 28)
+//@   ensures exactlen: err == nil && shelleyFamily && len(a.extraData) == 0 ==>
+//@       ((ty <= 3 ==> len(data) == 57) && (ty == 6 || ty == 7 || ty == 14 || ty == 15 ==> len(data) == 29))
+//@   ensures trailer: err == nil && shelleyFamily && len(a.extraData) != 0 ==> data[0] & 15 == 1
